@@ -86,9 +86,52 @@ theorem c12_endpoint_reset_verdict (e : Endpoint) (ms : List (GmQuic.Sid.Dir × 
       · exact Or.inl rfl
       · exact Or.inr ⟨_, rfl⟩
 
+/-! ### STREAM frames: C12's endpoint and C01's receiver
+
+`Endpoint.deliver .stream` runs C11's `RecvHalf.rx true` itself, so C12 = C11 there by construction; with `hr_rx` the verdict is
+also C01's, for ANY frame (not only frames of a conformant sender). -/
+
+/-- C01's error string as C12's connection-error kind -/
+def errKind (k : String) : ErrKind := if k = "FlowControl" then .flowControl else .finalSize
+
+/-- **The connection error C12's endpoint raises for a STREAM frame is the one C01's receiver raises**, and an accepted frame
+reports C01's number of newly covered bytes: for any endpoint whose input set holds, under stream `s`, a receiving half related
+(`HR`, up to payload bytes) to a C01 receiver `r`, and ANY frame `f`. -/
+theorem c12_endpoint_stream_verdict (e : Endpoint) (ms : List (GmQuic.Sid.Dir × Nat)) (s : Nat) (f : Stream.Frame)
+    {r : Stream.Recver} {hh : RecvHalf} (h : HR r hh none) (hin : lookup e.inputs s = some hh) :
+    match (r.rx f).2 with
+    | .error k => e.deliver ms .stream s f.off f.data.length f.fin = (e, .err (errKind k))
+    | .ok n => (e.deliver ms .stream s f.off f.data.length f.fin).2 = .panic ∨
+        ∃ ms', (e.deliver ms .stream s f.off f.data.length f.fin).2 = .ok n ms' := by
+  have hk := (hr_rx h rfl f).1
+  unfold Endpoint.deliver
+  simp only [hin]
+  cases ho : (r.rx f).2 with
+  | error k =>
+    rw [ho] at hk
+    simp only [obsRx] at hk
+    by_cases c : k = "FlowControl"
+    · simp only [c, if_true] at hk; simp only [hk, errKind, c, if_true]
+    · simp only [c, if_false] at hk; simp only [hk, errKind, c, if_false]
+  | ok n =>
+    rw [ho] at hk
+    simp only [obsRx] at hk
+    simp only [hk]
+    split
+    · split
+      · exact Or.inl rfl
+      · exact Or.inr ⟨_, rfl⟩
+    · exact Or.inr ⟨_, rfl⟩
+
 -- non-vacuity: a live receiver with limit 100 that has seen 10 bytes: 5 ↦ FINAL_SIZE, 5000 ↦ FLOW_CONTROL, 60 ↦ 50 new bytes
 example : let q : Rcvr := { half := { msd := 100, init := 100, largest := 10 } }
     q.live = true ∧ resetRx q.half 5 = some .finalSize ∧ resetRx q.half 5000 = some .flowControl ∧
     resetRx q.half 60 = some (.sync 50) ∧ (q.reset true 60).2 = .sync 50 := by decide
+
+-- non-vacuity of the STREAM premises: a fresh C01 receiver with limit 100 is related to the half C12 stores for stream 4
+example : HR ({ maxSD := 100 } : Stream.Recver) (RecvHalf.mk0 100) none ∧
+    (lookup [(4, RecvHalf.mk0 100)] 4).isSome = true ∧
+    (({ maxSD := 100 } : Stream.Recver).rx { off := 90, data := List.replicate 20 0, fin := false }).2 = .error "FlowControl" :=
+  ⟨(rr_init 100).hr, by decide, by rfl⟩
 
 end GmQuic.Links
